@@ -639,6 +639,34 @@ def read_extractor_state() -> Any:
     return sorted(mutated), fresh
 
 
+def read_archive_error_cover() -> bool:
+    """_fetch_from_source: does the try whose handler turns zipfile.BadZipfile / tarfile.ReadError into a
+    MetadataError cover the ANALYSIS (the `with closing(extractor):` block calling _fetch_from_setup_py), not only
+    the construction of the extractor?  Damage met while members are read surfaces there."""
+    f = T.func(T.parse("req_compile/metadata/source.py"), "_fetch_from_source")
+    tries = []
+    for n in ast.walk(f):
+        if isinstance(n, ast.Try):
+            for h in n.handlers:
+                names = [_safe_chain(e) for e in (h.type.elts if isinstance(h.type, ast.Tuple) else [h.type])] if h.type is not None else []
+                if "zipfile.BadZipfile" in names or "zipfile.BadZipFile" in names:
+                    if "tarfile.ReadError" not in names:
+                        raise TranslateError("_fetch_from_source: tarfile.ReadError is no longer handled with BadZipfile")
+                    if not any(isinstance(x, ast.Raise) and isinstance(x.exc, ast.Call) and _safe_chain(x.exc.func) == "MetadataError"
+                               for x in ast.walk(h)):
+                        raise TranslateError("_fetch_from_source: the archive-error handler does not raise MetadataError")
+                    tries.append(n)
+    if len(tries) != 1:
+        raise TranslateError("_fetch_from_source: expected exactly one try handling BadZipfile/ReadError")
+    body_calls = [_safe_chain(c.func) for st in tries[0].body for c in ast.walk(st) if isinstance(c, ast.Call)]
+    if not any(x for x in body_calls if x in ("extractor_type",)):
+        raise TranslateError("_fetch_from_source: the extractor is not constructed inside the try")
+    all_calls = [_safe_chain(c.func) for c in ast.walk(f) if isinstance(c, ast.Call)]
+    if all_calls.count("_fetch_from_setup_py") != 1:
+        raise TranslateError("_fetch_from_source: expected one call of _fetch_from_setup_py")
+    return "_fetch_from_setup_py" in body_calls and "closing" in body_calls
+
+
 def generate_frame() -> str:
     steps, begin, ctx, ctx_ok, restored, pep_patch = read_frame()
     out = FRAME_HEADER
@@ -649,6 +677,7 @@ def generate_frame() -> str:
     out += f"Definition ctx_restored_in_finally : bool := {'true' if ctx_ok else 'false'}.\n"
     out += f"Definition pep517_chdir_restored_in_finally : bool := {'true' if restored else 'false'}.\n"
     out += f"Definition pep517_failure_wrapped : bool := {'true' if read_pep517_wrapped() else 'false'}.\n"
+    out += f"Definition archive_errors_cover_analysis : bool := {'true' if read_archive_error_cover() else 'false'}.\n"
     mutated, fresh = read_extractor_state()
     out += "Definition extractor_mutable_attrs : list string := [" + "; ".join(cs(x) for x in mutated) + "].\n"
     out += f"Definition extractor_state_fresh_per_analysis : bool := {'true' if fresh else 'false'}.\n"
